@@ -170,3 +170,4 @@ import Bmc.Proofs.EndToEnd.SessionlessHistory
 #print axioms Bmc.Proofs.EndToEnd.generated_sessionless_history
 #print axioms Bmc.Proofs.EndToEnd.generated_sessionless_history_ignores_connection
 #print axioms Bmc.Proofs.EndToEnd.generated_sessionless_history_null
+#print axioms Bmc.Proofs.EndToEnd.generated_sessionless_history_results
